@@ -34,12 +34,14 @@ Print Assumptions C18_element.
 (** zero offset, then scale, then offset, then weight (weights are applied after the offsets) *)
 Theorem C18_scale_offset_weight : forall raw z s o w, sub_value raw z s o w = ((raw - z) * s + o) * w.
 Proof. exact sub_value_order. Qed.
+Print Assumptions C18_scale_offset_weight.
 
 (** Coherence: (pol0 + pol1) * scale; Stokes and Intensity: pol0; PPQQ: unsupported or as Coherence *)
 Theorem C18_pol_value : forall csc v,
   pol_value 0 csc v = Some ((v 0 + v 1) * csc) /\ pol_value 1 csc v = Some (v 0) /\ pol_value 2 csc v = Some (v 0) /\
   (pol_value 3 csc v = None \/ pol_value 3 csc v = Some ((v 0 + v 1) * csc)).
 Proof. exact pol_value_spec. Qed.
+Print Assumptions C18_pol_value.
 
 (** delivered channels are in descending-frequency order for both channel orders of the file *)
 Theorem C18_descending : forall f0 df nchan c, df <> 0 -> 0 <= c -> c + 1 < nchan ->
@@ -56,6 +58,7 @@ Print Assumptions C18_read_block_verdict.
 
 Theorem C18_read_block_refuted_is_violation : RBRefuted -> ~ RBSpec.
 Proof. exact rb_refuted_not_spec. Qed.
+Print Assumptions C18_read_block_refuted_is_violation.
 
 (** whatever the verdict: a request whose computed sub-integrations cover it is answered correctly ... *)
 Theorem C18_read_block_covered_partial : forall F start nsamps, wf F -> in_range F start nsamps -> rb_cov (p_nsub F) (p_nsblk F) start nsamps ->
@@ -73,6 +76,7 @@ Print Assumptions C18_read_block_aligned_partial.
 Theorem C18_unreadable_whole : forall F e, 1 <= p_nsub F -> 1 <= p_nsblk F -> 1 <= p_nstot F <= p_nsub F * p_nsblk F ->
   file_status F = Some e -> whole F = RErr e.
 Proof. exact unreadable_whole. Qed.
+Print Assumptions C18_unreadable_whole.
 
 (** ** read_plan *)
 
@@ -84,6 +88,7 @@ Print Assumptions C18_plan_verdict.
 
 Theorem C18_plan_refuted_is_violation : PlanRefuted -> ~ PlanSpec.
 Proof. exact plan_refuted_not_spec. Qed.
+Print Assumptions C18_plan_refuted_is_violation.
 
 (** what PlanSpec gives: each requested sample exactly once, in order, block sizes and indices right *)
 Theorem C18_plan_sound : PlanSpec -> forall F g0 start nsamps s0, wf F -> in_range F start nsamps -> 1 <= g0 -> Z.abs s0 < Z.min nsamps g0 ->
@@ -128,9 +133,11 @@ Print Assumptions C18_labels_verdict.
 
 Theorem C18_labels_refuted_is_violation : LabelRefuted -> ~ LabelSpec.
 Proof. exact label_refuted_not_spec. Qed.
+Print Assumptions C18_labels_refuted_is_violation.
 
 Theorem C18_labels_descending_partial : forall f0 df nchan c, df < 0 -> 0 <= c < nchan -> label_freq f0 df nchan c = data_freq f0 df nchan c.
 Proof. exact label_descending. Qed.
+Print Assumptions C18_labels_descending_partial.
 
 (** ** non-vacuity *)
 (** a readable file (2 rows x 2 samples x 4 polarisations x 2 descending channels, Stokes): the hypotheses are satisfiable;
